@@ -64,7 +64,7 @@ REQUIRED_COUNTERS = [
     "dirs_checked", "mkdir_events", "same_second_starts", "frozen_clock_effective",
     "entries_resolved", "combos_checked", "files_compared_exact", "files_compared_lossy", "fs_events", "write_events",
     "preexisting_files_hashed", "prepopulated_collisions", "writer_calls", "writer_collisions_checked", "probe_snapshots",
-    "nonreproducible_runs", "entries_of_runs_executed_more_than_once", "entries_attributed_by_result_data",
+    "nonreproducible_runs", "entries_of_runs_executed_more_than_once", "entries_attributed_by_result_data", "runs_exposure_after_save_list_edit",
 ]
 TIMEOUT = {"quick": 900, "thorough": 3600}
 LEVEL_TEXT = ("Exploration by runtime monitoring: every start is executed by the real run_mode (or the real writer functions) "
@@ -1149,9 +1149,19 @@ def case_exposure(rec, index, rng, root):
         for s in range(cfg["n_starts"]):
             a, b = 10 + s, rng.randint(3, 90)
             mode, det, pipe = build_exposure(cfg, a, b, given)
+            save_s = cfg["save"]
             if cfg["reuse_mode"] and mode0 is not None:
                 mode = mode0
+                if rng.random() < 0.6:
+                    # the user edits the save list of the configuration object between two runs
+                    save_s = gen_save(rng, allow_exotic=False)[0]
+                    mode.outputs.save_data_to_file = [dict(d) for d in save_s]
+                    case.setdefault("save_list_edits", []).append({"start": s, "save": save_s})
+                    rec.count("runs_exposure_after_save_list_edit")
+                else:
+                    save_s = last_save
             mode0 = mode
+            last_save = save_s
             before = listing(parent)
             reset_log()
             MON.begin(parent)
@@ -1175,7 +1185,7 @@ def case_exposure(rec, index, rng, root):
                 continue
             snaps, n_exec, _ = collect_snaps()
             rec.count("probe_snapshots", len(snaps))
-            check_result(ctx, "exposure", tree, run_dir, cfg["save"], [(a, b, DEFAULTS["temperature"])], snaps,
+            check_result(ctx, "exposure", tree, run_dir, save_s, [(a, b, DEFAULTS["temperature"])], snaps,
                          before=before, parent=parent, execs=note_repro(rec, cfg))
     rec.observe("modes", "exposure" + ("/yaml" if cfg["yaml"] else ""))
     rec.observe("save_forms", cfg["form"])
